@@ -153,8 +153,26 @@ type condKey struct {
 	fr *frame
 }
 
+// fnValueBinding: function-typed parameters of the loop function that the kernel's forwarding call binds to a
+// named function (the two gully kernels hand their export function to a shared loop this way). Set per model.
+var fnValueBinding = map[*ssa.Parameter]*ssa.Function{}
+
+// calleeOf: the function a call invokes — statically, or through a bound function-typed parameter.
+func calleeOf(call *ssa.Call) *ssa.Function {
+	if f := call.Common().StaticCallee(); f != nil {
+		return f
+	}
+	if call.Common().IsInvoke() {
+		return nil
+	}
+	if prm, ok := call.Common().Value.(*ssa.Parameter); ok {
+		return fnValueBinding[prm]
+	}
+	return nil
+}
+
 func newFrame(call *ssa.Call, path []*ssa.BasicBlock) *frame {
-	fr := &frame{call: call, fn: call.Common().StaticCallee(), path: path, pos: map[*ssa.BasicBlock]int{}}
+	fr := &frame{call: call, fn: calleeOf(call), path: path, pos: map[*ssa.BasicBlock]int{}}
 	for i, b := range path {
 		fr.pos[b] = i
 	}
@@ -168,7 +186,7 @@ var helperPathCache = map[*ssa.Function][][]*ssa.BasicBlock{}
 // scalarHelperPaths: the entry→return paths of the callee when it is a loop-free function of the module that takes
 // and returns scalars only (it can touch no array), else nil.
 func scalarHelperPaths(call *ssa.Call) [][]*ssa.BasicBlock {
-	f := call.Common().StaticCallee()
+	f := calleeOf(call)
 	if f == nil || f.Blocks == nil || !InModule(f) || f.Signature.Recv() != nil || len(f.FreeVars) > 0 {
 		return nil
 	}
